@@ -96,6 +96,45 @@ def build():
     return req, cells, dep
 
 
+PP, PW = 'acme.common.v1', 'acme.widgets.v1'
+
+
+def build_pp():
+    """A second library whose dependency package is itself a proto-plus library (option proto-plus-deps)."""
+    common = file('acme/common/v1/common.proto', PP, messages=[
+        message('Thing', [field('name', 1, 'string'), field('n', 2, 'int32'), field('class', 3, 'string')]),
+        message('ThingReply', [field('note', 1, 'string'), field('parts', 2, f'.{PP}.Thing', repeated=True)])])
+    common.dependency.extend(desc.std_dep_names())
+    pre_req = request([common], 'transport=grpc,autogen-snippets=false')
+    desc.gate(pre_req)
+    locs_req = {'plus_dep': f'.{PP}.Thing', 'same': f'.{PW}.WReq'}
+    locs_resp = {'plus_dep': f'.{PP}.ThingReply', 'same': f'.{PW}.WResp'}
+    ms, cells = [], []
+    for ar, (cs, ss) in ARITIES.items():
+        for rq, rs in itertools.product(locs_req, locs_resp):
+            name = f'P{ar.capitalize()}{rq.title().replace("_", "")}{rs.title().replace("_", "")}'
+            ms.append(method(name, locs_req[rq], locs_resp[rs], cs=cs, ss=ss))
+            cells.append(dict(id=f'pp/{ar}/{rq}/{rs}', service='Widgets', rpc=name, py=names.py_method(name), arity=KIND[ar],
+                              req=locs_req[rq], resp=locs_resp[rs]))
+    main = file('acme/widgets/v1/widgets.proto', PW, messages=[
+        message('WReq', [field('name', 1, 'string'), field('thing', 2, f'.{PP}.Thing')]),
+        message('WResp', [field('ok', 1, 'bool'), field('thing', 2, f'.{PP}.Thing')])], services=[service('Widgets', ms)])
+    main.dependency.extend(desc.std_dep_names() + [common.name])
+    req = request([main], f'transport=grpc,autogen-snippets=false,proto-plus-deps={PP}', extra_dep_files=[common])
+    desc.gate(req)
+    return pre_req, req, cells
+
+
+def make_pp_job(cells_subset=None, seed=0):
+    pre_req, req, cells = build_pp()
+    if cells_subset is not None:
+        cells = [c for c in cells if c['id'] in cells_subset]
+    return dict(id='c03-protoplus-deps', req=req.SerializeToString(), probe='mc.probes.grpc_calls',
+                pre=[dict(id='c03-pp-pre', req=pre_req.SerializeToString())],
+                probe_args=dict(package=names.import_package(PW), proto_package=PW, cells=cells, seed=seed,
+                                plus={PP: names.import_package(PP)})), cells
+
+
 def make_job(cells_subset=None, seed=0):
     req, cells, dep = build()
     if cells_subset is not None:
@@ -107,14 +146,16 @@ def make_job(cells_subset=None, seed=0):
 
 def run(ctx):
     job, cells = make_job(seed=ctx.seed)
-    ctx.log(f'{len(cells)} method cells in one library')
-    res, = engine.run_jobs([job])
+    ppjob, ppcells = make_pp_job(seed=ctx.seed)
+    ctx.log(f'{len(cells)} method cells in one library, {len(ppcells)} in a library over a proto-plus dependency package')
+    res, ppres = engine.run_jobs([job, ppjob])
     consume(ctx, res, cells)
+    consume(ctx, ppres, ppcells, floor=False)
     ctx.extra['bound'] = 'complete product of arity x request location x response location; name cells; all request forms; valuations {empty, each field alone, all}'
     ctx.assume('the asyncio stream-unary method returns an awaitable call object (api-core); the probe awaits it to obtain the reply')
 
 
-def consume(ctx, res, cells):
+def consume(ctx, res, cells, floor=True):
     if not res['gen']['ok']:
         ctx.violation(f'generation:{res["gen"]["etype"]}:{res["gen"]["where"]}',
                       f'generator failed on the C03 pack: {res["gen"]["emsg"][:300]}', dict(cells='all'))
@@ -141,20 +182,23 @@ def consume(ctx, res, cells):
     conf = obs.get('conformance') or {}
     ctx.extra['seam_conformance'] = dict(calls_through_real_grpc_server=conf.get('calls'), aio_calls_through_real_grpc_server=conf.get('aio_calls'), mismatches=len(conf.get('mismatches') or []),
                                          skipped=conf.get('skipped'))
-    if conf.get('mismatches') and not ctx.violations:
-        raise HarnessError(f'C03 seam conformance: fake channel and real loopback server disagree: {conf["mismatches"][:3]}')
     for f in obs['failures']:
         fp = f'{f["cell"]}|{f["client"]}|{f["form"]}|{f["kind"]}'
         ctx.violation(fp, f'{f["cell"]} {f["client"]} form={f["form"]} val={f["val"]} reply={f["reply"]}: '
                           f'{f["kind"]}: {f["detail"]}', dict(cells=[f['cell']]))
-    if n_calls < 20 * len(cells) and not ctx.violations:
+    if conf.get('mismatches') and not ctx.violations:
+        raise HarnessError(f'C03 seam conformance: fake channel and real loopback server disagree: {conf["mismatches"][:3]}')
+    if floor and n_calls < 20 * len(cells) and not ctx.violations:
         raise HarnessError(f'C03 exploration collapsed: {n_calls} calls for {len(cells)} cells')
 
 
 def replay(ctx, state):
-    job, cells = make_job(None if state['cells'] == 'all' else state['cells'], seed=ctx.seed)
-    res, = engine.run_jobs([job])
-    consume_replay(ctx, res, cells)
+    sub = None if state['cells'] == 'all' else state['cells']
+    for mk in (make_job, make_pp_job):
+        job, cells = mk(sub, seed=ctx.seed)
+        if cells:
+            res, = engine.run_jobs([job])
+            consume_replay(ctx, res, cells)
 
 
 def consume_replay(ctx, res, cells):
